@@ -9,7 +9,7 @@ import (
 
 // Name pools are small on purpose: collisions between the two sides of a pair are the point.
 var (
-	TableNames = []string{"t1", "t2", "users", "Orders", "a b", "somewhere"}
+	TableNames = []string{"t1", "t2", "users", "Orders", "a b", "somewhere", "health_check"}
 	ColNames   = []string{"id", "a", "b", "c", "name", "Val", "x y", "ts", "WHEREABOUTS"}
 	// Types: the full sqlite.TypeRegistry catalogue with a parameter grid.
 	Types = []string{
